@@ -7,6 +7,7 @@
 import Rl.Editor
 import Rl.Props.C09
 import Rl.Spec.OracleSearch
+import Rl.Lemmas.EditorLoops
 open Rl Rl.Spec
 
 /-- Whenever the model's search step succeeds, the line it shows is a stored entry that really
@@ -40,8 +41,28 @@ theorem C08_oracle_agrees_with_model (cfg : EdCfg) (t : Text) (idx : Nat) (d : D
   simp only [testOf, if_true] at this
   simpa [MemHist.search, memHist] using this
 
-/-- Full statement (work in progress): aborting the search restores line, cursor and undo log. -/
+/-- Statement as first written: aborting the search restores line, cursor and the undo stack.
+    The undo-stack clause is too strong in vi mode with a custom binding (a key bound to `Abort` that
+    first leaves insert mode closes the group opened by entering insert mode, which lies *below* the
+    mark); the line/cursor clauses need a growable buffer.  Proved: `C08_abort_restores`. -/
 def C08_abort_restores_statement : Prop :=
   ∀ (S : Segmenter) (U : UData) (cfg : EdCfg) (s s' : Ed) (fuel : Nat),
     reverseIncrementalSearch S U cfg fuel s = .ok (none, s') →
     s'.line.buf = s.line.buf ∧ s'.line.pos = s.line.pos ∧ s'.changes.undos = s.changes.undos
+
+/-- **Abort restores**: whenever the incremental search ends without handing a command back (empty
+    history, or C-g after any sequence of search keys, typed characters, backspaces and direction
+    changes), the text and cursor are exactly those from before the search. -/
+theorem C08_abort_restores (S : Segmenter) (U : UData) (cfg : EdCfg) (s s' : Ed) (fuel : Nat)
+    (hrun : reverseIncrementalSearch S U cfg fuel s = .ok (none, s'))
+    (hg : s.line.canGrow = true) (hp : s.line.pos ≤ blen s.line.buf) :
+    s'.line.buf = s.line.buf ∧ s'.line.pos = s.line.pos ∧ s'.line.canGrow = true := by
+  have hw : wp (reverseIncrementalSearch S U cfg fuel)
+      (fun r s' => r = none → s'.line.buf = s.line.buf ∧ s'.line.pos = s.line.pos ∧ s'.line.canGrow = true)
+      (fun _ _ => True) s := by
+    unfold reverseIncrementalSearch
+    split
+    · simp only [wp_pure]; intro _; exact ⟨trivial, trivial, hg⟩
+    · simp only [wp_bind, wp_changesBegin, wp_getLine]
+      exact searchLoop_abort S U cfg _ _ _ hp fuel _ _ _ _ _ hg
+  exact wp_ok hw hrun rfl
